@@ -12,6 +12,14 @@ WORDS = ['Patient', 'Name', 'Date', 'UID', 'Echo', 'Time', 'Image', 'Position', 
          'Instance', 'Csa', 'Physician', 'Age', 'Comment', 'Station', 'Private', 'X', 'Number', 'Study']
 
 
+
+def incl_arg(r, incl):
+    """how a caller hands over the include patterns: a list or tuple; nothing to include is None, an
+    empty list or an empty tuple (all three mean: no key is force-included)"""
+    if incl:
+        return r.choice([list(incl), tuple(incl)])
+    return r.choice([None, [], ()])
+
 def gen_key(r):
     from pydicom.datadict import DicomDictionary
     x = r.random()
@@ -53,7 +61,7 @@ def main(pid, tier):
             excl = r.sample(pool, r.randint(1, 3))
             incl = r.sample(pool + WORDS, r.randint(0, 2))
         keys = [gen_key(r) for _ in range(12)]
-        flt = dcmstack.make_key_regex_filter(excl, incl if incl else None)
+        flt = dcmstack.make_key_regex_filter(excl, incl_arg(r, incl))
         got = [bool(flt(k, None)) for k in keys]
         exp = [bool(any(re.search(e, k) for e in excl) and not any(re.search(x, k) for x in incl)) for k in keys]
         rep.evaluations += 1
@@ -136,7 +144,7 @@ def main(pid, tier):
         if custom:
             excl = r.sample(['Series', 'Image', 'Echo', 'Window', 'Number', 'Bits', 'Pixel'], r.randint(1, 3))
             incl = r.sample(['Position', 'Type', 'Stored'], r.randint(0, 2))
-            flt = dcmstack.make_key_regex_filter(excl, incl if incl else None)
+            flt = dcmstack.make_key_regex_filter(excl, incl_arg(r, incl))
         else:
             excl, incl, flt = None, None, None
         try:
